@@ -23,7 +23,7 @@ def scenarios(ctx):
         d = s.cfg["pumpdir"]
         dd = "<" if d == 1 else ">"
         pumps.append(Scn(s.name + ".then", s.arr + [(dd, tail[d]), (dd, tail[d][2:])], dict(s.cfg, cls="pump-then", wf=0), (), (), s.close))
-    return base + ex + cb + raw + pumps + gens.gaps(ctx.seed, q)
+    return base + ex + cb + raw + pumps + gens.gaps(ctx.seed, q) + gens.structural(ctx.seed, q, per=40 if q else 400)
 
 
 def run(ctx):
